@@ -646,18 +646,18 @@ Proof.
     pose proof (count_lit_nonneg mid) as Hfix. fold fixed in Hfix, HL1, HL2.
     apply len_in_intro.
     + unfold mn_ok. destruct mn as [m|]; [|exact I]. specialize (Dlo (m - fixed) eq_refl).
-      cbn [app]. repeat rewrite length_app_Z. cbn [length]. lia.
+      cbn [app]. repeat rewrite length_app_Z. cbn [length]. clear - Dlo HL1 Hfix. lia.
     + intros m ->. cbn [sub_fixed] in *. cbn [max_small] in Hsmall.
       pose proof Hanch as Hanch'. unfold anchored_for_max in Hanch'. apply andb_true_iff in Hanch'. destruct Hanch' as [Hlead _].
       destruct (lead_pre _ _ _ _ _ Hlead HMa) as [-> _].
       change (a :: mid ++ [b]) with ((a :: mid) ++ [b]) in Hanch, Hdoll.
       destruct (trail_post _ _ _ _ _ _ _ Hanch Hdoll (ex_intro _ ([] ++ [] ++ sm ++ []) eq_refl) HMb) as [-> _].
       assert (Hsum : sum_hi dist <= m - fixed).
-      { apply Dhi; [reflexivity | lia |]. apply orb_true_iff in Hzero. destruct Hzero as [Hz|Hz]; [left | right; exact Hz].
-        cbn [is_some_zero] in Hz. destruct (m - fixed); [discriminate | lia | lia]. }
+      { apply Dhi; [reflexivity | clear - Hsmall Hfix; lia |]. apply orb_true_iff in Hzero. destruct Hzero as [Hz|Hz]; [left | right; exact Hz].
+        cbn [is_some_zero] in Hz. clear - Hz. destruct (m - fixed); [discriminate | lia | lia]. }
       assert (HF3 : Forall (fun d => snd d < MAXREPEAT) dist).
-      { apply sum_hi_each; [eapply bound_rel_nonneg; eauto | lia]. }
-      specialize (HL2 HF3). cbn [app]. repeat rewrite length_app_Z. cbn [length]. lia.
+      { apply sum_hi_each; [eapply bound_rel_nonneg; eauto | clear - Hsum Hsmall Hfix; lia]. }
+      specialize (HL2 HF3). cbn [app]. repeat rewrite length_app_Z. cbn [length]. clear - HL2 Hsum. lia.
 Qed.
 End Sound.
 
